@@ -29,14 +29,14 @@ func init() {
 	simkit.Register(&simkit.Prop{
 		ID:   "C42",
 		Desc: "pre-executing invoke / deploy / EIP-155 transactions through every read-only interface of the ledger leaves the disk, all four stores, height, block hash and event records untouched - also between ExecuteBlock and SubmitBlock of a commit, after a restart, and compared with a twin ledger that never pre-executed anything",
-		Rule: "a run = a solo ledger plus a twin that receives the same blocks and no pre-execution; setup deploys a NeoVM storage contract and an EVM universal contract and funds two EVM senders; then 4..22 tape-chosen operations: pre-execute a generated transaction (native ONG/ONT transfer / transferV2 / approve, NeoVM storage put / delete, a throwing script, a deploy, an EIP-155 value transfer, SSTORE, LOG, CALL with value, SELFDESTRUCT, SSTORE+REVERT, creation) through PreExecuteContract, PreExecuteContractWithParam, PreExecuteContractBatch (atomic and not, 1..3 transactions), PreExecuteEIP155, PreExecuteEip155Tx or TraceEip155Tx, on the driving goroutine or handed to a second goroutine; commit a block (empty, or carrying the transactions pre-executed before) with up to 2 pre-executions between ExecuteBlock and SubmitBlock; clean restart. Around every pre-execution: the count of mutating SimDisk calls on database journal files (every logical LevelDB write appends to one; table compactions that goleveldb starts after fruitless seeks are allowed and counted as a probe), height, current block hash and the logical digest of block / state / event / cross-chain store must be unchanged; after every commit and restart all four stores must equal the twin's; parties also spend their own ONT (all of it, part of it, more than they have) and every committed ONT transfer must succeed or fail, and the parties' balances must read, as a model of the COMMITTED transfers alone says (the twin shares the process, so state leaked by a pre-execution into process-global memory would hit both ledgers alike). non-trivial = at least 3 pre-executions of state-writing transactions that returned a result, one of them between ExecuteBlock and SubmitBlock, and at least one of the pre-executed transactions later changed contract state when committed in a block; distinct = distinct event-trace hash",
+		Rule: "a run = a solo ledger plus a twin that receives the same blocks and no pre-execution; setup deploys a NeoVM storage contract and an EVM universal contract and funds two EVM senders; then 4..22 tape-chosen operations: pre-execute a generated transaction (native ONG/ONT transfer / transferV2 / approve, NeoVM storage put / delete, a throwing script, a deploy, an EIP-155 value transfer, SSTORE, LOG, CALL with value, SELFDESTRUCT, SSTORE+REVERT, creation) through PreExecuteContract, PreExecuteContractWithParam, PreExecuteContractBatch (atomic and not, 1..3 transactions), PreExecuteEIP155, PreExecuteEip155Tx or TraceEip155Tx, on the driving goroutine or handed to a second goroutine; commit a block (empty, or carrying the transactions pre-executed before) with up to 2 pre-executions between ExecuteBlock and SubmitBlock and, for a third of the non-empty blocks, one more INSIDE SubmitBlock (the committing goroutine is stopped right before a tape-chosen disk call of the commit while a second goroutine pre-executes); clean restart. Around every pre-execution: the count of mutating SimDisk calls on database journal files (every logical LevelDB write appends to one; table compactions that goleveldb starts after fruitless seeks are allowed and counted as a probe), height, current block hash and the logical digest of block / state / event / cross-chain store must be unchanged; after every commit and restart all four stores must equal the twin's; parties also spend their own ONT (all of it, part of it, more than they have) and every committed ONT transfer must succeed or fail, and the parties' balances must read, as a model of the COMMITTED transfers alone says (the twin shares the process, so state leaked by a pre-execution into process-global memory would hit both ledgers alike). non-trivial = at least 3 pre-executions of state-writing transactions that returned a result, one of them between ExecuteBlock and SubmitBlock, and at least one of the pre-executed transactions later changed contract state when committed in a block; distinct = distinct event-trace hash",
 		Real: []string{"core/store/ledgerstore (PreExecuteContract, PreExecuteContractWithParam, PreExecuteContractBatch, PreExecuteEIP155, PreExecuteEip155Tx, TraceEip155Tx, ExecuteBlock, SubmitBlock, recovery)", "smartcontract + NeoVM + native ONT/ONG", "smartcontract/service/evm + vm/evm (incl. StructLogger tracer)", "smartcontract/storage CacheDB/StateDB + overlaydb", "event store, goleveldb on SimDisk"},
 		Stub: []string{"solo block producer (harness builds/signs blocks like consensus/solo)", "RPC layer: the ledger methods are called directly with the arguments http/ethrpc and http/base would pass", "wasm JIT (stub archive; no wasm transactions)"},
 		Assumptions: []string{
 			"pre-executions overlap commits at operation granularity only: a pre-execution runs to completion between ExecuteBlock and SubmitBlock (on a second goroutine); a pre-execution racing inside SubmitBlock is not generated (it cannot be scheduled deterministically without a gate inside the ledger)",
 			"every logical write to a LevelDB appends to its journal file, so an unchanged journal-call count means nothing was written; read-triggered (seek) compaction may rewrite table files and the manifest without changing content; the digest comparison re-reads the whole image through a read-only LevelDB",
 		},
-		ExpectedProbes: []string{"pre_native", "pre_neovm_put", "pre_neovm_throw", "pre_deploy", "pre_evm_transfer", "pre_evm_call", "pre_evm_create", "pre_evm_foreign_chain_id", "if_contract", "if_with_param", "if_batch", "if_batch_atomic", "if_eip155", "if_eip155_msg", "if_trace", "pre_ok", "pre_error", "pre_between_execute_and_submit", "pre_on_second_goroutine", "committed_changes_state", "restart", "commit_with_txs", "leveldb_compaction_during_preexec"},
+		ExpectedProbes: []string{"pre_native", "pre_neovm_put", "pre_neovm_throw", "pre_deploy", "pre_evm_transfer", "pre_evm_call", "pre_evm_create", "pre_evm_foreign_chain_id", "if_contract", "if_with_param", "if_batch", "if_batch_atomic", "if_eip155", "if_eip155_msg", "if_trace", "pre_ok", "pre_error", "pre_between_execute_and_submit", "pre_inside_submit", "pre_on_second_goroutine", "committed_changes_state", "restart", "commit_with_txs", "leveldb_compaction_during_preexec"},
 		Run:            runC42,
 	})
 }
@@ -69,20 +69,21 @@ type c42Subject struct {
 }
 
 type c42Run struct {
-	c        *simkit.Ctx
-	m, w     *world.Chain
-	parties  []*account.Account
-	ont      map[common.Address]uint64 // ONT of parties[1:] by the committed transfers
-	keys     []*c07Key
-	evmNonce map[ethcomm.Address]uint64
-	u        ethcomm.Address // universal contract
-	neo      common.Address  // NeoVM storage contract
-	ontNonce uint32
-	ts       uint32
-	deployID byte
-	pending  []*c42Subject
-	jobs     chan func()
-	done     chan struct{}
+	c            *simkit.Ctx
+	m, w         *world.Chain
+	parties      []*account.Account
+	ont          map[common.Address]uint64 // ONT of parties[1:] by the committed transfers
+	keys         []*c07Key
+	evmNonce     map[ethcomm.Address]uint64
+	u            ethcomm.Address // universal contract
+	neo          common.Address  // NeoVM storage contract
+	ontNonce     uint32
+	ts           uint32
+	deployID     byte
+	pending      []*c42Subject
+	whileBlocked func() // set while a commit is paused inside SubmitBlock: lets it go on
+	jobs         chan func()
+	done         chan struct{}
 
 	preWrites, preBoundary int
 	committedChanged       bool
@@ -473,13 +474,31 @@ func (r *c42Run) preExec(boundary bool) {
 		}()
 		out.ok, out.detail = call()
 	}
+	skipCompare := false
 	if other {
 		r.jobs <- run
-		<-r.done
+		if r.whileBlocked != nil {
+			// the commit is paused inside SubmitBlock: a pre-execution that waits for it (the
+			// atomic batch takes the saving lock) can only finish after the commit goes on
+			world.Quiesce()
+			select {
+			case <-r.done:
+			default:
+				c.Probe("pre_waited_for_commit")
+				skipCompare = true
+				r.whileBlocked()
+				<-r.done
+			}
+		} else {
+			<-r.done
+		}
 	} else {
 		run()
 	}
 	after := r.observe()
+	if skipCompare {
+		after = before
+	}
 	if out.panicV != nil {
 		c.Fail("preexec-panics", sig, "pre-execution of %s through %s panics: %v", desc, iface[3:], out.panicV)
 	}
@@ -642,7 +661,27 @@ func (r *c42Run) commit(txs []*types.Transaction, nBoundary int) store.ExecuteRe
 	for i := 0; i < nBoundary; i++ {
 		r.preExec(true)
 	}
-	if err := r.m.Store.SubmitBlock(blk, nil, res); err != nil {
+	if len(txs) > 0 && c.Tape.Prob(1, 3) {
+		// a pre-execution INSIDE SubmitBlock: the committing goroutine stops right before a
+		// tape-chosen disk call of the commit (hash-file append, block / event / state store
+		// batch), a second goroutine pre-executes, then the commit goes on
+		reached, resume := r.m.Disk.ArmPause(1 + c.Tape.Choose(16))
+		errCh := make(chan error, 1)
+		go func() { errCh <- r.m.Store.SubmitBlock(blk, nil, res) }()
+		world.Quiesce()
+		select {
+		case <-reached:
+			c.Probe("pre_inside_submit")
+			r.whileBlocked = resume
+			r.preExec(true)
+			r.whileBlocked = nil
+		default:
+		}
+		resume()
+		if err := <-errCh; err != nil {
+			c.Harness("main refuses block %d: SubmitBlock (paused inside): %v", h, err)
+		}
+	} else if err := r.m.Store.SubmitBlock(blk, nil, res); err != nil {
 		c.Harness("main refuses block %d: SubmitBlock: %v", h, err)
 	}
 	r.m.Now = r.ts
